@@ -281,6 +281,20 @@ func guardT(d time.Duration, fn func()) guardRes {
 
 func guard(fn func()) guardRes { return guardT(callWatchdog, fn) }
 
+// hugeWatchdog applies to calls with the value 2^31: zeroing 16 GiB (see hugeBegin) is slow
+// but not a hang.
+const hugeWatchdog = 150 * time.Second
+
+// guardHuge: fn must call hugeBarrier() first if huge.
+func guardHuge(huge bool, fn func()) guardRes {
+	if huge {
+		r := guardT(hugeWatchdog, fn)
+		fmt.Println("h") // see hugeImpatience in runner.go
+		return r
+	}
+	return guardT(callWatchdog, fn)
+}
+
 func firstLine(s string) string {
 	if i := strings.IndexByte(s, '\n'); i >= 0 {
 		s = s[:i]
@@ -304,10 +318,22 @@ var (
 	gcOffWorker    = os.Getenv("GOGC") == "off"
 )
 
+// barriers: the Go page allocator is address-ordered first-fit and zeroes a whole span if it
+// starts below the arena's high-water mark (e.g. on a freed goroutine stack).  A 128 MiB
+// block allocated just before the call ends beyond every page used so far, so a following
+// 16 GiB request starts on untouched memory.
+var barriers [][]byte
+
 func hugeBegin() {
 	if !gcOffWorker {
 		debug.SetGCPercent(-1)
 	}
+}
+
+// hugeBarrier is called on the calling goroutine immediately before the SetOption call.
+func hugeBarrier() {
+	fmt.Println("H") // see hugeImpatience in runner.go
+	barriers = append(barriers, make([]byte, 128<<20))
 }
 
 // hugeEnd: accepted says whether memory may really have been allocated.
@@ -351,10 +377,6 @@ func closeAll(socks ...mangos.Socket) {
 var addrSeq int64
 
 var tmpDir = os.TempDir()
-
-type tran struct {
-	name string // scheme
-}
 
 var trans = []string{"inproc", "tcp", "ipc", "tls+tcp", "ws", "wss"}
 
